@@ -398,6 +398,19 @@ def cases(rng, tier):
             evs += env['pending']
             env['pending'] = []
             evs += _sweep(rng, fe, tree, 1.0 if full else 0.4, env)
+        if rng.random() < 0.5:
+            # handlers attached while Interests are already flowing (after some were dispatched): mostly BELOW an
+            # occupied prefix (the longer prefix must win from now on), else above / beside one; then more Interests
+            for _ in range(rng.randint(1, 3)):
+                cand = [p for p in tree if '/'.join(p) not in att]
+                if not cand:
+                    break
+                below = [p for p in cand if any(k == '' or '/'.join(p).startswith(k + '/') for k in att)]
+                p = rng.choice(below if below and rng.random() < 0.7 else cand)
+                hid += 1
+                evs.append(['a', list(p), hid, how('a')])
+                att['/'.join(p)] = hid
+            evs += _sweep(rng, fe, tree, 1.0 if full else 0.4, env)
         evs += env['pending']
         c = {'fe': fe, 'events': evs}
         if labels != LABELS:
